@@ -261,6 +261,17 @@ Definition divide_quad (q : quad) : list quad :=
   else if (2 * w <? h)%Z then [(q0, q1, q2, yc); (q0, yc, q2, q3)]
   else [(q0, q1, xc, yc); (xc, q1, q2, yc); (q0, yc, xc, q3); (xc, yc, q2, q3)].
 
+(* transform_meshes.dst_quad_to_src: the corners (nw, sw, se, ne) of a destination quad as source pixel coordinates;
+   T = dst_srs.transform_to(src_srs, .) is external (PROJ), off = px_offset (0 or 1/2) *)
+Definition dst_quad_to_src (T : qpt -> qpt) (sb : qbbox) (sw sh : Z) (db : qbbox) (dw dh : Z) (off : Q) (q : quad) : list qpt :=
+  let '(q0, q1, q2, q3) := q in
+  map (fun p : Z * Z =>
+         lin_transf sb (img_rect sw sh)
+                    (T (lin_transf (img_rect dw dh) db (inject_Z (fst p) + off, inject_Z (snd p) + off))))
+      [(q0, q1); (q0, q3); (q2, q3); (q2, q1)].
+Definition in_quadb (q : quad) (i j : Z) : bool :=
+  let '(q0, q1, q2, q3) := q in ((q0 <=? i) && (i <? q2) && (q1 <=? j) && (j <? q3))%Z.
+
 (* InfoQuery.coord *)
 Definition info_coord (b : qbbox) (w h : Z) (pos : Z * Z) : qpt :=
   lin_transf (img_rect w h) b (inject_Z (fst pos), inject_Z (snd pos)).
